@@ -127,9 +127,9 @@ fn s_mutants(t: &mut Tape, ctx: &mut Ctx) -> Result<(), Failure> {
 
 pub fn streams() -> Vec<Stream> {
     vec![
-        Stream { name: "generated", kind: Kind::Tape { cases: |t: Tier| t.pick(6_000, 300_000), max_len: 320, f: s_generated }, isolate: false },
-        Stream { name: "edited", kind: Kind::Tape { cases: |t: Tier| t.pick(10_000, 300_000), max_len: 340, f: s_edited }, isolate: false },
-        Stream { name: "mutants", kind: Kind::Tape { cases: |t: Tier| t.pick(20_000, 600_000), max_len: 120, f: s_mutants }, isolate: false },
+        Stream { name: "generated", kind: Kind::Tape { cases: |t: Tier| t.pick(15_000, 400_000), max_len: 320, f: s_generated }, isolate: false },
+        Stream { name: "edited", kind: Kind::Tape { cases: |t: Tier| t.pick(40_000, 1_000_000), max_len: 340, f: s_edited }, isolate: false },
+        Stream { name: "mutants", kind: Kind::Tape { cases: |t: Tier| t.pick(60_000, 1_500_000), max_len: 120, f: s_mutants }, isolate: false },
     ]
 }
 
